@@ -7,7 +7,6 @@ import (
 	"sort"
 	"strings"
 
-	"verif/checker/internal/gen"
 	"verif/checker/internal/interp"
 	"verif/checker/internal/load"
 	"verif/checker/internal/tmpl"
@@ -80,6 +79,20 @@ func newRegWorld(prog *load.Program, specs []importSpec, moqPkg string) (*regWor
 
 // newRegWorldWith: as newRegWorld, with a given abstract go/types package for the loaded source package.
 func newRegWorldWith(prog *load.Program, specs []importSpec, moqPkg string, typesPkg *interp.Opaque) (*regWorld, error) {
+	w, got, err := regNew(prog, specs, moqPkg, typesPkg, nil, 1)
+	if err != nil {
+		return nil, err
+	}
+	if w == nil {
+		return nil, fmt.Errorf("registry.New returned no registry for a package that loads without errors (%s)", interp.Show(got))
+	}
+	return w, nil
+}
+
+// regNew interprets registry.New(".", moqPkg) with packages.Load replaced by a model that returns npkgs
+// abstract packages for "." (the first one carrying the given import specs and load errors) and none for
+// any other directory. It returns the world around the registry (nil if New returned none) and New's result.
+func regNew(prog *load.Program, specs []importSpec, moqPkg string, typesPkg *interp.Opaque, loadErrors []string, npkgs int) (*regWorld, interp.Value, error) {
 	m := interp.New(prog)
 	tmpl.InstallTypesModels(m, prog)
 	tmpl.RemoveVarModels(m)
@@ -88,23 +101,23 @@ func newRegWorldWith(prog *load.Program, specs []importSpec, moqPkg string, type
 	m.Distinct = func(tok, lit string) bool { return lit == "." || lit == "_" || lit == "" }
 	tPkg, err := namedStructOf(prog, "golang.org/x/tools/go/packages", "Package")
 	if err != nil {
-		return nil, err
+		return nil, nil, err
 	}
 	tFile, err := namedStructOf(prog, "go/ast", "File")
 	if err != nil {
-		return nil, err
+		return nil, nil, err
 	}
 	tSpec, err := namedStructOf(prog, "go/ast", "ImportSpec")
 	if err != nil {
-		return nil, err
+		return nil, nil, err
 	}
 	tIdent, err := namedStructOf(prog, "go/ast", "Ident")
 	if err != nil {
-		return nil, err
+		return nil, nil, err
 	}
 	tLit, err := namedStructOf(prog, "go/ast", "BasicLit")
 	if err != nil {
-		return nil, err
+		return nil, nil, err
 	}
 	// one file per spec: the order of files and of specs inside a file is the same thing to the harvest
 	files := &interp.List{}
@@ -128,9 +141,28 @@ func newRegWorldWith(prog *load.Program, specs []importSpec, moqPkg string, type
 	if typesPkg == nil {
 		typesPkg = pkgOpaque(rwSrcPath, rwSrcName)
 	}
+	errList := &interp.List{}
+	if len(loadErrors) > 0 {
+		tErr, err := namedStructOf(prog, "golang.org/x/tools/go/packages", "Error")
+		if err != nil {
+			return nil, nil, err
+		}
+		for _, msg := range loadErrors {
+			// the message is an opaque text: whether the package is usable must not depend on what it says
+			errList.Elems = append(errList.Elems, fullStruct(m, tErr, map[string]interp.Value{"Msg": interp.Tok(msg), "Pos": interp.Lit("")}))
+		}
+		m.Ext["(golang.org/x/tools/go/packages.Error).Error"] = func(mm *interp.Machine, pos token.Pos, recv interp.Value, args []interp.Value) (interp.Value, error) {
+			if st, ok := recv.(*interp.Struct); ok {
+				if msg, ok := st.Fields["Msg"].(*interp.Sym); ok {
+					return msg, nil
+				}
+			}
+			return &interp.Unknown{Why: "packages.Error.Error()"}, nil
+		}
+	}
 	srcPkg := &interp.Ptr{Elem: fullStruct(m, tPkg, map[string]interp.Value{
 		"Name": interp.Lit(rwSrcName), "PkgPath": interp.Lit(rwSrcPath), "Types": typesPkg,
-		"Syntax": files, "Errors": &interp.List{},
+		"Syntax": files, "Errors": errList,
 	})}
 	m.Ext["golang.org/x/tools/go/packages.Load"] = func(mm *interp.Machine, pos token.Pos, recv interp.Value, args []interp.Value) (interp.Value, error) {
 		dir := ""
@@ -142,36 +174,131 @@ func newRegWorldWith(prog *load.Program, specs []importSpec, moqPkg string, type
 			}
 		}
 		if dir == "." {
-			return interp.Tuple{&interp.List{Elems: []interp.Value{srcPkg}}, interp.NilV{}}, nil
+			l := &interp.List{}
+			for k := 0; k < npkgs; k++ {
+				l.Elems = append(l.Elems, srcPkg)
+			}
+			return interp.Tuple{l, interp.NilV{}}, nil
 		}
 		// any other directory holds no package
 		return interp.Tuple{&interp.List{}, interp.NilV{}}, nil
 	}
 	newFn := prog.LookupFunc(load.PkgRegistry, "New")
 	if newFn == nil {
-		return nil, fmt.Errorf("registry.New not found")
+		return nil, nil, fmt.Errorf("registry.New not found")
 	}
 	got, err := m.CallFunc(token.NoPos, newFn, nil, []interp.Value{interp.Lit("."), interp.Lit(moqPkg)})
 	if err != nil {
-		return nil, err
+		return nil, nil, err
 	}
 	if m.Choices.Forked() {
-		return nil, fmt.Errorf("registry.New decides on something the abstract package does not fix (%s)", m.Choices.Describe())
+		return nil, nil, fmt.Errorf("registry.New decides on something the abstract package does not fix (%s)", m.Choices.Describe())
 	}
 	t, _ := got.(interp.Tuple)
 	if len(t) != 2 {
-		return nil, fmt.Errorf("registry.New returned %s", interp.Show(got))
+		return nil, nil, fmt.Errorf("registry.New returned %s", interp.Show(got))
 	}
 	reg, _ := t[0].(*interp.Ptr)
 	if reg == nil {
-		return nil, fmt.Errorf("registry.New returned no registry for a package that loads without errors (%s)", interp.Show(got))
+		return nil, got, nil
 	}
-	return &regWorld{prog: prog, m: m, reg: reg}, nil
+	return &regWorld{prog: prog, m: m, reg: reg}, got, nil
+}
+
+// loadErrorsTable (G-LOAD/errors-fatal): a source package that was loaded with errors — one or several —
+// or a directory that holds no package or more than one makes registry.New fail; nothing is generated from
+// a package the compiler front end rejected.
+func loadErrorsTable(c *Ctx) {
+	run, prog := c.Run, c.Prog
+	pos := "internal/registry/registry.go"
+	if fn := prog.LookupFunc(load.PkgRegistry, "New"); fn != nil {
+		pos = prog.Pos(fn.Pos())
+	}
+	cases := []struct {
+		desc  string
+		errs  []string
+		npkgs int
+	}{
+		{"a package loaded with one error", []string{"ɛ1"}, 1},
+		{"a package loaded with three errors", []string{"ɛ1", "ɛ2", "ɛ3"}, 1},
+		{"a directory that holds no package", nil, 0},
+		{"a directory that holds two packages", nil, 2},
+	}
+	for _, tc := range cases {
+		w, got, err := regNew(prog, nil, "", nil, tc.errs, tc.npkgs)
+		if err != nil {
+			p := pos
+			if u, ok := err.(*interp.ErrUndecided); ok && u.Pos.IsValid() {
+				p = prog.Pos(u.Pos)
+			}
+			run.Undecided("G-LOAD/errors-fatal", tc.desc, p, "registry.New cannot be interpreted for "+tc.desc+": "+err.Error())
+			continue
+		}
+		failed := false
+		if t, ok := got.(interp.Tuple); ok && len(t) == 2 && w == nil {
+			if _, isNil := t[1].(interp.NilV); !isNil {
+				failed = true
+			}
+		}
+		run.Check("G-LOAD/errors-fatal", tc.desc, pos, failed, fmt.Sprintf("for %s registry.New returns %s, want no registry and an error: moq must not generate from a package that does not load cleanly", tc.desc, interp.Show(got)))
+	}
+	run.Floor("G-LOAD/errors-fatal", 4)
 }
 
 // mapsOf returns the map-valued fields of the registry with the given element type test.
 func (w *regWorld) mapField(elemIsString bool) (*interp.MapV, string) {
-	st := w.reg.Elem.Type.Underlying().(*types.Struct)
+	return mapFieldIn(w.reg.Elem, elemIsString, 0)
+}
+
+// structOfType finds, in the struct or the structs it embeds or holds, the value a method with the given
+// receiver type is called on (the struct itself for its own type).
+func structOfType(sv *interp.Struct, recv types.Type, depth int) interp.Value {
+	if sv == nil || sv.Type == nil || depth > 3 {
+		return nil
+	}
+	want := recv
+	isPtr := false
+	if p, ok := recv.(*types.Pointer); ok {
+		want, isPtr = p.Elem(), true
+	}
+	if types.Identical(sv.Type, want) {
+		if isPtr {
+			return &interp.Ptr{Elem: sv}
+		}
+		return sv
+	}
+	st, ok := sv.Type.Underlying().(*types.Struct)
+	if !ok {
+		return nil
+	}
+	for i := 0; i < st.NumFields(); i++ {
+		var inner *interp.Struct
+		switch v := sv.Fields[st.Field(i).Name()].(type) {
+		case *interp.Struct:
+			inner = v
+		case *interp.Ptr:
+			inner = v.Elem
+		}
+		if inner == nil || inner == sv {
+			continue
+		}
+		if v := structOfType(inner, recv, depth+1); v != nil {
+			return v
+		}
+	}
+	return nil
+}
+
+// mapFieldIn finds the first map-valued field with string elements (the alias store) or other elements
+// (the import map) in the struct or, depth first, in the structs it embeds or holds.
+func mapFieldIn(sv *interp.Struct, elemIsString bool, depth int) (*interp.MapV, string) {
+	if sv == nil || sv.Type == nil || depth > 3 {
+		return nil, ""
+	}
+	st, ok := sv.Type.Underlying().(*types.Struct)
+	if !ok {
+		return nil, ""
+	}
 	for i := 0; i < st.NumFields(); i++ {
 		mt, ok := st.Field(i).Type().Underlying().(*types.Map)
 		if !ok {
@@ -181,8 +308,29 @@ func (w *regWorld) mapField(elemIsString bool) (*interp.MapV, string) {
 		if isStr != elemIsString {
 			continue
 		}
-		if mv, ok := w.reg.Elem.Fields[st.Field(i).Name()].(*interp.MapV); ok {
+		switch mv := sv.Fields[st.Field(i).Name()].(type) {
+		case *interp.MapV:
 			return mv, st.Field(i).Name()
+		case *interp.Struct:
+			// a typed wrapper around the map (type importMap struct{ m map[..].. })
+			if inner, n := mapFieldIn(mv, elemIsString, depth+1); inner != nil {
+				return inner, n
+			}
+		}
+	}
+	for i := 0; i < st.NumFields(); i++ {
+		var inner *interp.Struct
+		switch v := sv.Fields[st.Field(i).Name()].(type) {
+		case *interp.Struct:
+			inner = v
+		case *interp.Ptr:
+			inner = v.Elem
+		}
+		if inner == nil || inner == sv {
+			continue
+		}
+		if mv, n := mapFieldIn(inner, elemIsString, depth+1); mv != nil {
+			return mv, n
 		}
 	}
 	return nil, ""
@@ -407,59 +555,88 @@ func searchLiveTable(c *Ctx) {
 		run.Undecided(rule, key, p, "the registry cannot be interpreted for this scenario: "+err.Error())
 	}
 	const dep = "example.test/dep"
-	// ---------------- the qualifier search is live: it sees an import under the qualifier it has now
-	{
+	// the qualifier search is live: it sees an import under the qualifier it has now. Observed through the
+	// exported API only: an import is re-aliased behind the registry's back (the way conflict resolution
+	// does it: by writing Package.Alias); a package named like the new alias must then meet a conflict, and
+	// a package named like the old qualifier must not.
+	// two fresh registries, each with one import registered as dep and then re-aliased to renamed
+	world := func() (*regWorld, *interp.Ptr, error) {
 		w, err := newRegWorld(prog, nil, "")
-		var p *interp.Ptr
-		if err == nil {
-			var v interp.Value
-			v, err = w.addImport(dep, "dep")
-			p, _ = v.(*interp.Ptr)
+		if err != nil {
+			return nil, nil, err
 		}
-		search := gen.QualifierSearch(prog)
-		switch {
-		case err != nil:
-			und("G-IMPORT/search-live", "table", err)
-		case search == nil || p == nil:
-			run.Undecided("G-IMPORT/search-live", "table", pos, "the qualifier search of the registry (searchImport) was not found")
-		default:
-			// the import is re-aliased behind the registry's back, the way conflict resolution does it
-			p.Elem.Fields["Alias"] = interp.Lit("renamed")
-			var searchRecv interp.Value = w.reg
-			if sig, ok := search.Type().(*types.Signature); ok && sig.Recv() != nil {
-				if _, isMap := sig.Recv().Type().Underlying().(*types.Map); isMap {
-					mv, _ := w.mapField(false)
-					searchRecv = mv
-				}
-			}
-			found := func(name string) (bool, error) {
-				v, err := w.m.CallFunc(token.NoPos, search, searchRecv, []interp.Value{interp.Lit(name)})
-				if err != nil {
-					return false, err
-				}
-				switch r := v.(type) {
-				case interp.Tuple:
-					if len(r) == 2 {
-						b, _ := r[1].(bool)
-						return b, nil
-					}
-				case *interp.Ptr:
-					return true, nil
-				case interp.NilV:
-					return false, nil
-				}
-				return false, fmt.Errorf("searchImport returned %s", interp.Show(v))
-			}
-			f1, e1 := found("renamed")
-			f2, e2 := found("dep")
-			if e1 != nil || e2 != nil {
-				if e1 == nil {
-					e1 = e2
-				}
-				und("G-IMPORT/search-live", "table", e1)
-			} else {
-				run.Check("G-IMPORT/search-live", "table", pos, f1 && !f2, fmt.Sprintf("after an import registered as dep was re-aliased to renamed, the qualifier search finds renamed: %v, dep: %v; want true and false — conflict resolution renames imports after they were registered, so the search must compare current qualifiers, not an index built at registration", f1, f2))
+		v, err := w.addImport(dep, "dep")
+		if err != nil {
+			return nil, nil, err
+		}
+		p, _ := v.(*interp.Ptr)
+		if p == nil {
+			return nil, nil, fmt.Errorf("AddImport returned no import for another package")
+		}
+		p.Elem.Fields["Alias"] = interp.Lit("renamed")
+		return w, p, nil
+	}
+	// (1) a package named like the new alias meets a conflict: afterwards the two are told apart
+	w1, p1, err := world()
+	var q1, qp string
+	if err == nil {
+		var v interp.Value
+		if v, err = w1.addImport("x.test/renamed", "renamed"); err == nil {
+			if q1, err = w1.qualifier(v); err == nil {
+				qp, err = w1.qualifier(p1)
 			}
 		}
 	}
+	// (2) a package named like the old qualifier meets none: it keeps its plain name
+	var q2 string
+	if err == nil {
+		var w2 *regWorld
+		if w2, _, err = world(); err == nil {
+			var v interp.Value
+			if v, err = w2.addImport("y.test/dep", "dep"); err == nil {
+				q2, err = w2.qualifier(v)
+			}
+		}
+	}
+	if err != nil {
+		und("G-IMPORT/search-live", "table", err)
+		return
+	}
+	f1, f2 := q1 != qp, q2 != "dep"
+	run.Check("G-IMPORT/search-live", "table", pos, f1 && !f2, fmt.Sprintf("after an import registered as dep was re-aliased to renamed, the qualifier search finds renamed: %v, dep: %v (a new package named renamed ends up as %q next to %q; a new package named dep is qualified %q); want true and false — conflict resolution renames imports after they were registered, so the search must compare current qualifiers, not an index built at registration", f1, f2, q1, qp, q2))
+}
+
+// registeredPaths: the import paths the registry reports through its exported API (Imports, Package.Path);
+// quals, when not nil, receives the current qualifier of each.
+func (w *regWorld) registeredPaths(quals map[string]string) ([]string, error) {
+	v, err := w.m.CallMethod(token.NoPos, w.reg, "Imports", nil)
+	if err != nil {
+		return nil, err
+	}
+	var out []string
+	switch l := v.(type) {
+	case *interp.List:
+		for _, p := range l.Elems {
+			pv, err := w.m.CallMethod(token.NoPos, p, "Path", nil)
+			if err != nil {
+				return nil, err
+			}
+			ps, ok := pv.(*interp.Sym)
+			if !ok {
+				return nil, fmt.Errorf("Package.Path returned %s", interp.Show(pv))
+			}
+			out = append(out, ps.Flat())
+			if quals != nil {
+				q, err := w.qualifier(p)
+				if err != nil {
+					return nil, err
+				}
+				quals[ps.Flat()] = q
+			}
+		}
+	case interp.NilV:
+	default:
+		return nil, fmt.Errorf("Registry.Imports returned %s", interp.Show(v))
+	}
+	return out, nil
 }
